@@ -810,6 +810,11 @@ func (rl *Shell) keywordSwitch(increase bool) {
 		epos = rl.line.Len()
 	}
 
+	// No word under the cursor (punctuation).
+	if bpos > epos {
+		return
+	}
+
 	// Move the cursor backward if needed/possible
 	if bpos != 0 && ((*rl.line)[bpos-1] == '+' || (*rl.line)[bpos-1] == '-') {
 		bpos--
